@@ -646,6 +646,26 @@ def reshape_conditionals(fn, r, stats, key):
                         changed[0] += 1
                         i = j + 1
                         continue
+            if isinstance(s, ast.Assign) and len(s.targets) == 1 and isinstance(s.targets[0], ast.Name) and i + 1 < len(stmts) and surplus(s):
+                # `X = e1` / `X = e2(X)` with X read once in e2, all of it free of effects  ==  `X = e2(e1)`
+                nx = stmts[i + 1]
+                x_ = s.targets[0].id
+                if isinstance(nx, ast.Assign) and len(nx.targets) == 1 and isinstance(nx.targets[0], ast.Name) and nx.targets[0].id == x_:
+                    reads = [n for n in ast.walk(nx.value) if isinstance(n, ast.Name) and n.id == x_]
+                    inner_scope = any(isinstance(n, (ast.Lambda, ast.ListComp, ast.SetComp, ast.DictComp, ast.GeneratorExp)) for n in ast.walk(nx.value))
+                    if len(reads) == 1 and not inner_scope and _pure(s.value) and _pure(nx.value):
+                        cand = copy.deepcopy(nx)
+                        class _Sub(ast.NodeTransformer):
+                            def visit_Name(self, n):
+                                return copy.deepcopy(s.value) if n.id == x_ and isinstance(n.ctx, ast.Load) else n
+                        cand.value = _Sub().visit(cand.value)
+                        ast.fix_missing_locations(cand)
+                        if wanted(cand):
+                            swap([s, nx], [cand])
+                            out.append(cand)
+                            changed[0] += 1
+                            i += 2
+                            continue
             if isinstance(s, ast.If) and surplus(s) and not s.orelse and terminates(s.body) and i + 1 < len(stmts):
                 # `if A: X` / `if B: X` (X leaves the block)  ==  `if A or B: X`
                 j = i + 1
@@ -850,6 +870,14 @@ def _loop_as_comprehension(init, loop):
         app = copy.deepcopy(body[1])
         app.value.args[0] = ast.copy_location(ast.IfExp(test=body[0].test, body=body[0].body[0].value, orelse=ast.Name(id=v_, ctx=ast.Load())), body[0])
         body = [app]
+    def _app(b):
+        return len(b) == 1 and isinstance(b[0], ast.Expr) and isinstance(b[0].value, ast.Call) and isinstance(b[0].value.func, ast.Attribute) and b[0].value.func.attr == 'append' \
+            and isinstance(b[0].value.func.value, ast.Name) and b[0].value.func.value.id == x and len(b[0].value.args) == 1 and not b[0].value.keywords
+    if len(body) == 1 and isinstance(body[0], ast.If) and body[0].orelse and _app(body[0].body) and _app(body[0].orelse):
+        # for t in it: if c: X.append(a) / else: X.append(b)   ==   X.append(a if c else b)
+        app = copy.deepcopy(body[0].body[0])
+        app.value.args[0] = ast.copy_location(ast.IfExp(test=body[0].test, body=body[0].body[0].value.args[0], orelse=body[0].orelse[0].value.args[0]), body[0])
+        body = [app]
     if len(body) != 1:
         return None
     s = body[0]
@@ -878,6 +906,48 @@ def _loop_as_comprehension(init, loop):
     return ast.fix_missing_locations(new)
 
 
+def _partition_loop(a, b, loop):
+    """`A = {}` / `B = {}` / `for t in it: if c: A[k] = v / else: B[k2] = w`  ->  `A = {k: v for t in it if c}` / `B = {k2: w for t in it if not c}`
+    (lists with append likewise); `it` and `c` are read twice, so both must be free of effects and `it` must be a container, not an iterator"""
+    from .au import negate
+    if not (isinstance(loop, ast.For) and not loop.orelse and len(loop.body) == 1 and isinstance(loop.body[0], ast.If) and loop.body[0].orelse
+            and len(loop.body[0].body) == 1 and len(loop.body[0].orelse) == 1):
+        return None
+    it = loop.iter
+    root = it
+    while isinstance(root, (ast.Attribute, ast.Call)):
+        root = root.func if isinstance(root, ast.Call) else root.value
+    container = isinstance(it, ast.Name) or (isinstance(it, ast.Call) and isinstance(it.func, ast.Attribute) and it.func.attr in ('items', 'keys', 'values') and not it.args and isinstance(root, ast.Name))
+    cond = loop.body[0]
+    if not container or not _pure(cond.test) or not _pure(it):
+        return None
+    out = []
+    for init, arm, test in ((a, cond.body, cond.test), (b, cond.orelse, negate(copy.deepcopy(cond.test)))):
+        one = ast.copy_location(ast.For(target=copy.deepcopy(loop.target), iter=copy.deepcopy(it),
+                                        body=[ast.copy_location(ast.If(test=ast.fix_missing_locations(ast.copy_location(test, cond.test)), body=arm, orelse=[]), cond)], orelse=[]), loop)
+        c = _loop_as_comprehension(init, one)
+        if c is None:
+            # the arms may be written in the other order
+            break
+        out.append(c)
+    if len(out) != 2:
+        out = []
+        for init, arm, test in ((b, cond.body, cond.test), (a, cond.orelse, negate(copy.deepcopy(cond.test)))):
+            one = ast.copy_location(ast.For(target=copy.deepcopy(loop.target), iter=copy.deepcopy(it),
+                                            body=[ast.copy_location(ast.If(test=ast.fix_missing_locations(ast.copy_location(test, cond.test)), body=arm, orelse=[]), cond)], orelse=[]), loop)
+            c = _loop_as_comprehension(init, one)
+            if c is None:
+                return None
+            out.append(c)
+        out.reverse()
+    # neither accumulator may be read by the other's comprehension
+    names = {c.targets[0].id for c in out}
+    for c in out:
+        if any(isinstance(n, ast.Name) and n.id in names for n in ast.walk(c.value)):
+            return None
+    return out
+
+
 def loops_to_comprehensions(fn, r, stats, key):
     """an accumulation loop and the comprehension that says the same are one program; where the reference has the comprehension and the
     current function has the loop, read the loop as the comprehension"""
@@ -885,6 +955,7 @@ def loops_to_comprehensions(fn, r, stats, key):
     loc = set(local_names(fn))
     have = collections.Counter(d for d, _ in r.get('stmts', []))
     cur = collections.Counter(stmt_blind(x, loc)[0] for x in statements(fn))
+    have_w = {d for d, _ in r.get('wstmts', [])}
     done = [0]
 
     def blk(stmts):
@@ -898,6 +969,20 @@ def loops_to_comprehensions(fn, r, stats, key):
             if isinstance(s, ast.Try):
                 for hd in s.handlers:
                     blk(hd.body)
+            if i + 2 < len(stmts):
+                pair = _partition_loop(s, stmts[i + 1], stmts[i + 2])
+                if pair is not None:
+                    ds = []
+                    for c in pair:
+                        loc2 = loc | {n.id for n in ast.walk(c) if isinstance(n, ast.Name) and isinstance(n.ctx, ast.Store)}
+                        ds.append(stmt_blind(c, loc2)[0])
+                    incomps = [stmt_blind(ast.Expr(value=c.value), loc | {n.id for n in ast.walk(c) if isinstance(n, ast.Name) and isinstance(n.ctx, ast.Store)})[0] in r.get('comps', ()) for c in pair]
+                    if all(cur[d] < have[d] or ic for d, ic in zip(ds, incomps)) and (ds[0] != ds[1] or cur[ds[0]] + 2 <= have[ds[0]] or all(incomps)):
+                        stmts[i:i + 3] = pair
+                        for d in ds:
+                            cur[d] += 1
+                        done[0] += 1
+                        continue
             if i + 1 < len(stmts):
                 c = _loop_as_comprehension(s, stmts[i + 1])
                 if c is not None:
@@ -909,6 +994,24 @@ def loops_to_comprehensions(fn, r, stats, key):
                         cur[d] += 1
                         done[0] += 1
                         continue
+                    # `for t in f(E)` where the reference first names f(E): `T = f(E)` / `X = [.. for t in T]`
+                    comp = inner
+                    it = comp.generators[0].iter if isinstance(comp, (ast.ListComp, ast.DictComp, ast.SetComp)) else None
+                    if isinstance(it, ast.Call) and _pure(it):
+                        tname = '__it%d' % done[0]
+                        pre = ast.fix_missing_locations(ast.copy_location(ast.Assign(targets=[ast.Name(id=tname, ctx=ast.Store())], value=it), s))
+                        c2 = copy.deepcopy(c)
+                        comp2 = c2.value.args[0] if isinstance(c2.value, ast.Call) else c2.value
+                        comp2.generators[0].iter = ast.copy_location(ast.Name(id=tname, ctx=ast.Load()), it)
+                        ast.fix_missing_locations(c2)
+                        loc3 = loc2 | {tname}
+                        d1, d2 = stmt_blind(pre, loc3)[0], stmt_blind(c2, loc3)[0]
+                        if (cur[d1] < have[d1] and cur[d2] < have[d2]) or (d1 in have_w and d2 in have_w and not cur[d2]):   # the reference may reuse one spelling for both (webs)
+                            stmts[i:i + 2] = [pre, c2]
+                            cur[d1] += 1
+                            cur[d2] += 1
+                            done[0] += 1
+                            continue
             i += 1
     blk(fn.body)
     if done[0] and stats is not None:
@@ -1073,8 +1176,63 @@ def coalesce_copies(fn, ref_names, params):
     return done
 
 
+def coalesce_bound_copies(fn, ref_names, params):
+    """`X = Y` with the NEW name X (a parameter of an inlined helper bound to the caller's Y): when renaming X to Y leaves every read of either
+    name with exactly the definitions that reached it before (reaching definitions compared node by node), X was Y all along"""
+    from . import webs as W
+    done = 0
+    for _ in range(8):
+        hit = None
+        nodes = list(ast.walk(fn))
+        for k, s in enumerate(nodes):
+            if isinstance(s, ast.Assign) and len(s.targets) == 1 and isinstance(s.targets[0], ast.Name) and isinstance(s.value, ast.Name):
+                x, y = s.targets[0].id, s.value.id
+                if x == y or x.split('\x01')[0] in ref_names or x in params:
+                    continue
+                loc = fn_scope_locals(fn)
+                if y not in loc and y not in params:
+                    continue
+                try:
+                    w0 = W.Webs(fn, loc).run()
+                    fn2 = copy.deepcopy(fn)
+                    for m in ast.walk(fn2):
+                        if isinstance(m, ast.Name) and m.id == x:
+                            m.id = y
+                    if any(isinstance(m, ast.arg) and m.arg == x for m in ast.walk(fn2)):
+                        continue
+                    w2 = W.Webs(fn2, fn_scope_locals(fn2)).run()
+                except RecursionError:
+                    continue
+                if x in w0.deferred or y in w0.deferred:
+                    continue
+                nodes2 = list(ast.walk(fn2))
+                if len(nodes2) != len(nodes):
+                    continue
+                i0 = {id(n): j for j, n in enumerate(nodes)}
+                i2 = {id(n): j for j, n in enumerate(nodes2)}
+                r0 = {i0[id(n)]: frozenset(i0.get(id(w0.defs[d][1])) for d in reach) for n, reach in w0.uses if n.id in (x, y)}
+                r2 = {i2[id(n)]: frozenset(i2.get(id(w2.defs[d][1])) for d in reach) for n, reach in w2.uses if i2[id(n)] in r0}
+                if r0 == r2 and None not in {d for v in r0.values() for d in v}:
+                    hit = (s, x, y)
+                    break
+        if hit is None:
+            break
+        s, x, y = hit
+        for m in ast.walk(fn):
+            if isinstance(m, ast.Name) and m.id == x:
+                m.id = y
+        for n in ast.walk(fn):
+            for f in ('body', 'orelse', 'finalbody'):
+                block = getattr(n, f, None)
+                if isinstance(block, list) and s in block and len(block) > 1:
+                    block.remove(s)
+        done += 1
+    return done
+
+
 def _inline_new_temps(fn, ref_names, params, stats, key):
     coalesce_copies(fn, ref_names, params)
+    coalesce_bound_copies(fn, ref_names, params)
     own = fn_scope_locals(fn)
     cand = [n for n in own if n.split('\x01')[0] not in ref_names and n not in params]
     done = 0
@@ -1377,12 +1535,12 @@ def normalise_repo(trees, use_reference=True, stats=None):
                 if not _settle(fn, r, stats, key):
                     reshape_conditionals(fn, r, stats, key)
                     vote_rename(fn, r, stats, key)
-                    loops_to_comprehensions(fn, r, stats, key)
+                    nl = loops_to_comprehensions(fn, r, stats, key)
                     vote_rename_webs(fn, r, stats, key)
                     k = inline_new_temps(fn, r, stats, key)
                     if loops_to_comprehensions(fn, r, stats, key):
-                        k += inline_new_temps(fn, r, stats, key)
-                    if k:
+                        k += 1 + inline_new_temps(fn, r, stats, key)
+                    if k or nl:
                         reshape_conditionals(fn, r, stats, key)
                     fn.body = flatten_block(fn.body)
                     fn._drift = not _settle(fn, r, stats, key)
@@ -1487,7 +1645,9 @@ def make_reference(trees):
 # the reference snapshot are therefore inlined back at their call sites (a behaviour-preserving rewrite in its own right, whatever the
 # helper contains), so that the rules - and the mutants hidden inside a new helper - are judged on the code that actually runs.
 PURE_CALLS = {'getattr', 'hasattr', 'len', 'int', 'str', 'float', 'bool', 'type', 'isinstance', 'tuple', 'list', 'set', 'sorted', 'abs', 'min', 'max', 'dict', 'range', 'zip',
-              'as_list', 'as_tuple', 'is_int', 'is_str', 'is_num', 'is_date', 'is_pd', 'is_df', 'is_arr', 'is_ts', 'is_series', 'is_nan'}
+              'as_list', 'as_tuple', 'is_int', 'is_str', 'is_num', 'is_date', 'is_pd', 'is_df', 'is_arr', 'is_ts', 'is_series', 'is_nan',
+              'is_regex', 'is_primitive', 'is_float', 'is_bool', 'is_none', 'is_dict', 'is_zero_len', 'is_len', 'is_iterable', 'is_list', 'is_tuple', 'is_listable', 'is_dictable',
+              'is_tz', 'is_period', 'is_bump', 'is_strs', 'is_lists'}
 
 
 def _simple(e):
